@@ -167,6 +167,12 @@ Proof.
   destruct (ukind_of (h_kind h)); try discriminate UK; exists [nm]; (split; [exact O | left; reflexivity]).
 Qed.
 
+Lemma names_own_kinds k : names_own k = true <-> (k <> KJson /\ k <> KFunction /\ k <> KFunctionV0).
+Proof.
+  destruct k; unfold names_own; cbn [ukind_of]; split; intros H; try discriminate H; try reflexivity;
+    try (repeat split; discriminate); destruct H as [A [B C]]; congruence.
+Qed.
+
 Lemma generic_contributes E T h subs nm :
   ukind_of (h_kind h) = UGeneric -> node_name h = Ok nm ->
   mem nm (node_trusted E T h) = false -> contributes E T (Node h subs) nm.
